@@ -12,6 +12,7 @@ import (
 	"os/exec"
 	"path/filepath"
 	"regexp"
+	"strings"
 	"sync"
 	"time"
 )
@@ -48,6 +49,24 @@ type svcProc struct {
 	done      chan struct{} // closed when stdout reached EOF
 	exited    chan struct{}
 	exitErr   error
+	stderr    *lockedBuf
+}
+
+// crashText returns the panic message of the service process, if it crashed
+func (s *svcProc) crashText() string {
+	s.stderr.mu.Lock()
+	defer s.stderr.mu.Unlock()
+	t := s.stderr.b.String()
+	for _, marker := range []string{"panic:", "fatal error:"} {
+		if i := strings.Index(t, marker); i >= 0 {
+			t = t[i:]
+			if len(t) > 1200 {
+				t = t[:1200]
+			}
+			return t
+		}
+	}
+	return ""
 }
 
 func esbuildVersion(repo string) string {
@@ -90,7 +109,11 @@ func startSvc(exe, version string, extraEnv []string, onRequest func(p pkt) (int
 		onRequest: onRequest, done: make(chan struct{}), exited: make(chan struct{})}
 	s.cmd = exec.Command(exe, "--service="+version)
 	s.cmd.Env = append(os.Environ(), extraEnv...)
-	s.cmd.Stderr = io.Discard
+	s.stderr = &lockedBuf{}
+	s.cmd.Stderr = s.stderr
+	if raceChild {
+		s.cmd.Stderr = io.MultiWriter(s.stderr, svcStderr)
+	}
 	in, err := s.cmd.StdinPipe()
 	if err != nil {
 		return nil, err
@@ -233,6 +256,29 @@ func (s *svcProc) send(p pkt, kind, cmd string, key int) bool {
 		s.closeLocked()
 	}
 	return true
+}
+
+// sendBatch writes several request packets with ONE write, so that the
+// service finds all of them in its stdin buffer at once
+func (s *svcProc) sendBatch(ps []pkt) bool {
+	var all []byte
+	s.wmu.Lock()
+	defer s.wmu.Unlock()
+	if s.closed {
+		return false
+	}
+	s.mu.Lock()
+	for _, p := range ps {
+		body := encBody(p)
+		all = append(all, frame(body)...)
+		s.events = append(s.events, svcEvent{"creq", p.id, cmdOf(p.value), keyOf(p.value)})
+		s.inBody = append(s.inBody, body)
+		s.inPkt = append(s.inPkt, p)
+	}
+	s.mu.Unlock()
+	_, err := s.in.Write(all)
+	s.written += len(all)
+	return err == nil
 }
 
 func (s *svcProc) closeLocked() {
